@@ -17,6 +17,8 @@ import Pastel.Lemmas.PrintParse
 import Pastel.Props.C05
 import Pastel.Lemmas.HueLipschitz
 import Pastel.Lemmas.Quantize
+import Pastel.Props.C03
+import Pastel.Lemmas.HsvMix
 
 namespace Pastel.C02
 open Pastel
@@ -851,5 +853,163 @@ theorem scaledRound_near (m : Nat) (e : Int) (prec : Nat) :
       have hh : ((num % den : ℕ) : ℝ) / (den : ℝ) = 1 / 2 := by rw [div_eq_iff hdR.ne']; linarith
       push_cast
       rw [hh]; rw [abs_le]; constructor <;> linarith
+
+/-! ### The `hsv()` round-trip bound as a theorem -/
+
+/-- `from_hsva` for saturation and value in `[0,1]`: the chroma of the colour built is `V·S` and its
+lightness is `V − V·S/2` (exact arithmetic). -/
+theorem fromHsva_chroma_real (H S V a : ℝ) (hS : 0 ≤ S ∧ S ≤ 1) (hV : 0 ≤ V ∧ V ≤ 1) :
+    (fromHsva H S V a : Color ℝ).light = V * (1 - S / 2) ∧
+    (0 ≤ (fromHsva H S V a : Color ℝ).sat ∧ (fromHsva H S V a : Color ℝ).sat ≤ 1) ∧
+    (1 - |2 * (fromHsva H S V a : Color ℝ).light - 1|) * (fromHsva H S V a : Color ℝ).sat = V * S := by
+  unfold fromHsva clamp
+  sc_norm
+  push_cast
+  have hl0 : 0 ≤ V * (1 - S / 2) := mul_nonneg hV.1 (by linarith [hS.2])
+  have hl1 : V * (1 - S / 2) ≤ 1 := by nlinarith [hS.1, hS.2, hV.1, hV.2]
+  rw [min_eq_right hl1, max_eq_left hl0]
+  refine ⟨rfl, ?_, ?_⟩
+  · exact ⟨le_max_right _ _, max_le (min_le_left _ _) (by norm_num)⟩
+  · rw [one_sub_abs _ hl0 hl1]
+    by_cases hin : 0 < V * (1 - S / 2) ∧ V * (1 - S / 2) < 1
+    · rw [if_pos hin]
+      have hm : 0 < min (V * (1 - S / 2)) (1 - V * (1 - S / 2)) := lt_min hin.1 (by linarith [hin.2])
+      have hq0 : 0 ≤ (V - V * (1 - S / 2)) / min (V * (1 - S / 2)) (1 - V * (1 - S / 2)) :=
+        div_nonneg (by nlinarith [hS.1, hV.1]) hm.le
+      have hq1 : (V - V * (1 - S / 2)) / min (V * (1 - S / 2)) (1 - V * (1 - S / 2)) ≤ 1 := by
+        rw [div_le_one hm]
+        apply le_min <;> nlinarith [hS.1, hS.2, hV.1, hV.2]
+      rw [min_eq_right hq1, max_eq_left hq0]
+      generalize min (V * (1 - S / 2)) (1 - V * (1 - S / 2)) = mm at hm ⊢
+      have hne : mm ≠ 0 := hm.ne'
+      have e : 2 * mm * ((V - V * (1 - S / 2)) / mm) = 2 * (V - V * (1 - S / 2)) := by
+        rw [show 2 * mm * ((V - V * (1 - S / 2)) / mm) = 2 * (V - V * (1 - S / 2)) * (mm / mm) by ring, div_self hne, mul_one]
+      rw [e]; ring
+    · rw [if_neg hin]
+      norm_num
+      -- the lightness is 0 or 1: then V·S = 0
+      rcases not_and_or.mp hin with h | h
+      · have hz : V * (1 - S / 2) = 0 := le_antisymm (not_lt.mp h) hl0
+        have : V = 0 := by
+          rcases mul_eq_zero.mp hz with h' | h'
+          · exact h'
+          · exfalso; linarith [hS.2]
+        left; exact this
+      · have h1 : V * (1 - S / 2) = 1 := le_antisymm hl1 (not_lt.mp h)
+        have hS0 : S = 0 := by nlinarith [hS.1, hS.2, hV.1, hV.2]
+        right; exact hS0
+
+theorem byte_within3' (v : ℝ) (r : UInt8) (hv0 : 0 ≤ v) (hv1 : v ≤ 1) (h : |v - chan r| ≤ 3 / 255) :
+    within3 (Sc.toU8 (Sc.round (255.0 * v : ℝ))) r := by
+  rw [abs_le] at h
+  have hx : (255.0 : ℝ) * v = 255 * v := by norm_num
+  rw [hx]
+  have hc : chan r = (r.toNat : ℝ) / 255 := rfl
+  have hlo : ((r.toNat - 3 : ℕ) : ℝ) ≤ 255 * v := by
+    by_cases h3 : 3 ≤ r.toNat
+    · rw [Nat.cast_sub h3]; push_cast
+      have : (r.toNat : ℝ) = 255 * chan r := by rw [hc]; ring
+      linarith [h.1]
+    · have : r.toNat - 3 = 0 := by omega
+      rw [this]; push_cast; nlinarith
+  have hhi : 255 * v ≤ ((min (r.toNat + 3) 255 : ℕ) : ℝ) := by
+    have : (r.toNat : ℝ) = 255 * chan r := by rw [hc]; ring
+    rw [Nat.cast_min]; push_cast
+    apply le_min
+    · linarith [h.2]
+    · linarith
+  have := toU8_round_between (255 * v) (r.toNat - 3) (min (r.toNat + 3) 255) (min_le_right _ _) hlo hhi
+  exact ⟨this.1, this.2.trans (min_le_left _ _)⟩
+
+/-- One channel `κ·C + (V − C)` of the HSV cone: how far it moves. -/
+theorem hsv_chan_diff (k k' S S' V V' : ℝ) (hk : 0 ≤ k ∧ k ≤ 1) (hS : 0 ≤ S ∧ S ≤ 1) (hS' : 0 ≤ S' ∧ S' ≤ 1)
+    (hV : 0 ≤ V ∧ V ≤ 1) (hV' : 0 ≤ V' ∧ V' ≤ 1) :
+    |(k' * (V' * S') + (V' - V' * S')) - (k * (V * S) + (V - V * S))| ≤ |k' - k| + |S' - S| + 2 * |V' - V| := by
+  have hC : |V' * S' - V * S| ≤ |V' - V| + |S' - S| := by
+    have e : V' * S' - V * S = (V' - V) * S' + V * (S' - S) := by ring
+    rw [e]
+    refine (abs_add_le _ _).trans ?_
+    rw [abs_mul, abs_mul, abs_of_nonneg hS'.1, abs_of_nonneg hV.1]
+    have h1 : |V' - V| * S' ≤ |V' - V| := by nlinarith [abs_nonneg (V' - V)]
+    have h2 : V * |S' - S| ≤ |S' - S| := by nlinarith [abs_nonneg (S' - S)]
+    linarith
+  have hC' : 0 ≤ V' * S' ∧ V' * S' ≤ 1 := ⟨mul_nonneg hV'.1 hS'.1, by nlinarith⟩
+  have e : (k' * (V' * S') + (V' - V' * S')) - (k * (V * S) + (V - V * S)) =
+      (k' - k) * (V' * S') + (k - 1) * (V' * S' - V * S) + (V' - V) := by ring
+  rw [e]
+  refine (abs_add_le _ _).trans ?_
+  refine (add_le_add_left (abs_add_le _ _) _).trans ?_
+  rw [abs_mul (k' - k), abs_mul (k - 1), abs_of_nonneg hC'.1]
+  have h1 : |k' - k| * (V' * S') ≤ |k' - k| := by nlinarith [abs_nonneg (k' - k)]
+  have hk2 : |k - 1| ≤ 1 := by rw [abs_le]; constructor <;> linarith [hk.1, hk.2]
+  have h2 : |k - 1| * |V' * S' - V * S| ≤ 1 * (|V' - V| + |S' - S|) :=
+    mul_le_mul hk2 hC (abs_nonneg _) (by norm_num)
+  linarith [abs_nonneg (V' - V)]
+
+/-- The float channels of `from_hsva(H, S, V, a)` for `H ∈ [0,360]`, `S, V ∈ [0,1]`, in HSV terms. -/
+theorem fromHsva_channels (H S V a : ℝ) (hH : 0 ≤ H ∧ H ≤ 360) (hS : 0 ≤ S ∧ S ≤ 1) (hV : 0 ≤ V ∧ V ≤ 1) :
+    (toRgbaFloat (fromHsva H S V a : Color ℝ)).x = kR (H / 60) * (V * S) + (V - V * S) ∧
+    (toRgbaFloat (fromHsva H S V a : Color ℝ)).y = kG (H / 60) * (V * S) + (V - V * S) ∧
+    (toRgbaFloat (fromHsva H S V a : Color ℝ)).z = kB (H / 60) * (V * S) + (V - V * S) := by
+  obtain ⟨hl, _, hc⟩ := fromHsva_chroma_real H S V a hS hV
+  have hhue : hueValue (fromHsva H S V a : Color ℝ).hue = H := by
+    rw [fromHsva_hue_real]; exact real_hueValue_id_closed H hH.1 hH.2
+  have cl := toRgbaFloat_closed (fromHsva H S V a : Color ℝ)
+  rw [hhue, hc] at cl
+  rw [cl, hl]
+  refine ⟨?_, ?_, ?_⟩ <;> simp only [] <;> ring
+
+/-- **The `hsv()` round trip stays within 3 per channel, for all 2²⁴ colours at once** (exact
+arithmetic): a hue within half a degree of the reported HSV hue, saturation and value within 0.05 %
+of the reported ones — what `{:.0}` / `{:.1}` printing keeps — rebuilt with `from_hsva`. -/
+theorem hsv_roundtrip_within_3 (r g b : UInt8) (H S V : ℝ) (hH : 0 ≤ H ∧ H ≤ 360) (hS : 0 ≤ S ∧ S ≤ 1) (hV : 0 ≤ V ∧ V ≤ 1)
+    (dH : |H - (toHsva (fromRgba8 r g b 1 : Color ℝ)).x| ≤ 1 / 2)
+    (dS : |S - (toHsva (fromRgba8 r g b 1 : Color ℝ)).y| ≤ 1 / 2000)
+    (dV : |V - (toHsva (fromRgba8 r g b 1 : Color ℝ)).z| ≤ 1 / 2000) :
+    within3 (toRgba8 (fromHsva H S V 1 : Color ℝ)).r r ∧ within3 (toRgba8 (fromHsva H S V 1 : Color ℝ)).g g ∧
+      within3 (toRgba8 (fromHsva H S V 1 : Color ℝ)).b b := by
+  have hvalid := C05.fromRgba8_valid r g b (1 : ℝ)
+  have hchan := fromRgba8_toRgbaFloat r g b (1 : ℝ)
+  generalize (fromRgba8 r g b 1 : Color ℝ) = c at *
+  obtain ⟨⟨y0, y1⟩, ⟨z0, z1⟩⟩ := C05.hsv_range c hvalid
+  have hx : (toHsva c).x = hueValue c.hue := rfl
+  have hr := real_hueValue_range c.hue
+  -- the colour rebuilt from the exact HSV coordinates is the colour itself
+  obtain ⟨_, _, _, _, hsame⟩ := C03.hsv_roundtrip_real c hvalid
+  have c0 := fromHsva_channels (toHsva c).x (toHsva c).y (toHsva c).z (toHsva c).alpha (by rw [hx]; exact hr) ⟨y0, y1⟩ ⟨z0, z1⟩
+  rw [hsame, hchan] at c0
+  simp only [] at c0
+  have c1 := fromHsva_channels H S V 1 hH hS hV
+  have vr' : ∀ v, (∃ k, 0 ≤ k ∧ k ≤ 1 ∧ v = k * (V * S) + (V - V * S)) → 0 ≤ v ∧ v ≤ 1 := by
+    rintro v ⟨k, k0, k1, rfl⟩
+    have hvs : 0 ≤ V * S := mul_nonneg hV.1 hS.1
+    have hvs1 : V * S ≤ V := by nlinarith [hS.2, hV.1]
+    constructor <;> nlinarith [hV.2]
+  have dt : |H / 60 - (toHsva c).x / 60| ≤ 1 / 120 := by
+    have : H / 60 - (toHsva c).x / 60 = (H - (toHsva c).x) / 60 := by ring
+    rw [this, abs_div, abs_of_nonneg (by norm_num : (0 : ℝ) ≤ 60)]
+    rw [div_le_iff₀ (by norm_num)]; linarith
+  have key : ∀ (k : ℝ → ℝ), (∀ a b, |k a - k b| ≤ |a - b|) → (∀ t, 0 ≤ k t ∧ k t ≤ 1) →
+      |(k (H / 60) * (V * S) + (V - V * S)) -
+        (k ((toHsva c).x / 60) * ((toHsva c).z * (toHsva c).y) + ((toHsva c).z - (toHsva c).z * (toHsva c).y))| ≤ 3 / 255 := by
+    intro k klip krange
+    have := hsv_chan_diff (k ((toHsva c).x / 60)) (k (H / 60)) (toHsva c).y S (toHsva c).z V (krange _) ⟨y0, y1⟩ hS ⟨z0, z1⟩ hV
+    have hk := (klip (H / 60) ((toHsva c).x / 60)).trans dt
+    have : (1 : ℝ) / 120 + 1 / 2000 + 2 * (1 / 2000) ≤ 3 / 255 := by norm_num
+    linarith
+  have kRr : ∀ t, 0 ≤ kR t ∧ kR t ≤ 1 := fun t => clamp01_range _
+  have kGr : ∀ t, 0 ≤ kG t ∧ kG t ≤ 1 := fun t => clamp01_range _
+  have kBr : ∀ t, 0 ≤ kB t ∧ kB t ≤ 1 := fun t => clamp01_range _
+  have dx : |(toRgbaFloat (fromHsva H S V 1 : Color ℝ)).x - chan r| ≤ 3 / 255 := by
+    rw [c1.1, c0.1]; exact key kR kR_lip kRr
+  have dy : |(toRgbaFloat (fromHsva H S V 1 : Color ℝ)).y - chan g| ≤ 3 / 255 := by
+    rw [c1.2.1, c0.2.1]; exact key kG kG_lip kGr
+  have dz : |(toRgbaFloat (fromHsva H S V 1 : Color ℝ)).z - chan b| ≤ 3 / 255 := by
+    rw [c1.2.2, c0.2.2]; exact key kB kB_lip kBr
+  have rx := vr' _ ⟨kR (H / 60), (kRr _).1, (kRr _).2, c1.1⟩
+  have ry := vr' _ ⟨kG (H / 60), (kGr _).1, (kGr _).2, c1.2.1⟩
+  have rz := vr' _ ⟨kB (H / 60), (kBr _).1, (kBr _).2, c1.2.2⟩
+  unfold toRgba8
+  exact ⟨byte_within3' _ r rx.1 rx.2 dx, byte_within3' _ g ry.1 ry.2 dy, byte_within3' _ b rz.1 rz.2 dz⟩
 
 end Pastel.C02
